@@ -4,6 +4,7 @@ import InovesaModel.Model.Ruler
 import InovesaModel.Model.FokkerPlanck
 import InovesaModel.Model.RFDrift
 import InovesaModel.Model.PhaseSpace
+import InovesaModel.Model.H5Read
 import InovesaModel.Model.ElectricField
 import InovesaModel.Model.Options
 import InovesaModel.Model.MainProgram
@@ -221,6 +222,22 @@ def runPS (c : Case) : List String :=
     | "p" => (s, out ++ psPrint k s)
     | _ => (s, out ++ ["error unknown-op " ++ op])) (s0, [])
   ["case " ++ c.id] ++ lines
+
+/-- h5read <id> <rank> <nrec> <nb> <n> <step>: the start-file reader on a file whose record r holds the value r+1 -/
+def runH5Read (c : Case) : List String :=
+  let rank := natArg c 2
+  let nrec := natArg c 3
+  let nb := natArg c 4
+  let n := natArg c 5
+  let step : Int := ((c.head.getD 6 "0").toInt?).getD 0
+  let dims : Nat → Nat := fun k =>
+    if k = 0 then nrec
+    else if rank = 4 then (if k = 1 then nb else n)
+    else if rank = 5 then (if k = 1 then 1 else if k = 2 then nb else n)
+    else n
+  match readStart rank dims step with
+  | .refused => ["case " ++ c.id, "txt refused"]
+  | .loaded g r => ["case " ++ c.id, s!"ints {g} {r} {r}"]
 
 /-! ### ElectricField in binary64 with the naive transforms (validates the FFTW assumption) -/
 
@@ -623,6 +640,7 @@ def dispatch (c : Case) : List String :=
   | "rf" => runRF c
   | "ps" => runPS c
   | "psg" => runPS c
+  | "h5read" => runH5Read c
   | "ef" => runEF c
   | "opts" => runOpts c
   | "fpiter" => runFPIter c
